@@ -42,6 +42,11 @@ impl<'a, D: Dataset + ?Sized> ExecState<'a, D> {
         dataset: &'a D,
         query_dataset: &Option<QueryDataset>,
     ) -> Result<Self, SparqlWrapperError<D::Error>> {
+        if query_dataset.is_some() {
+            // NB: the merge of several FROM graphs (no duplicate triple),
+            // and the restriction of GRAPH to the FROM NAMED graphs, are not supported yet
+            return Err(SparqlWrapperError::NotImplemented("FROM / FROM NAMED"));
+        }
         let mut stash = ArcStrStash::new();
         let default_matcher = match query_dataset {
             None => vec![None],
